@@ -371,12 +371,14 @@ func (env *SpecEnv) trySelect(base Val, field string) (v Val, ok bool) {
 
 func (env *SpecEnv) index(base, idx Val, n *SNode) Val {
 	st := env.st
-	if env.absProbe != nil && env.absProbe.off == "" && idx.S == env.absProbe.name {
-		switch base.K {
-		case KSlice:
-			env.absProbe.off = base.off()
-		case KString:
-			env.absProbe.off = base.soff()
+	for p := env.absProbe; p != nil; p = p.outer {
+		if p.off == "" && idx.S == p.name {
+			switch base.K {
+			case KSlice:
+				p.off = base.off()
+			case KString:
+				p.off = base.soff()
+			}
 		}
 	}
 	switch base.K {
@@ -558,13 +560,14 @@ func (env *SpecEnv) evalQuant(n *SNode) Val {
 	// sequence has a non-zero offset O, quantify over g = O + k instead, so that select(row, g) is a
 	// purely syntactic trigger (arithmetic moves to the non-trigger side).
 	if len(n.Vars) == 1 {
-		env.absProbe = &absProbe{name: names[0]}
+		saved := env.absProbe
+		env.absProbe = &absProbe{name: names[0], outer: saved}
 		func() {
 			defer func() { recover() }()
 			env.child(bind).eval(n.Args[2])
 		}()
 		off := env.absProbe.off
-		env.absProbe = nil
+		env.absProbe = saved
 		if off != "" && off != "0" {
 			*env.qcount++
 			g := fmt.Sprintf("g_qabs_%d", *env.qcount)
@@ -588,6 +591,7 @@ func (env *SpecEnv) evalQuant(n *SNode) Val {
 }
 
 type absProbe struct {
+	outer *absProbe // probes of enclosing quantifiers
 	name string
 	off  string
 }
